@@ -47,7 +47,7 @@ MIN_HITS = {
         'mon:mime': 3000, 'mon:domain': 4000, 'mon:cluster': 2000, 'mon:geom': 2000, 'mon:algo': 30, 'algo-all-clients-empty': 12,
         'fully-padded-batch': 150, 'arbitrary-mask': 100, 'garbage-padding': 200, 'empty-client': 30, 'empty-domain': 400,
         'via-model': 300, 'reg:with-centre': 300, 'reg:none': 150, 'geometry:hand-built': 100, 'algo:mime': 2,
-        'algo:mime_lite': 2, 'algo:agnostic_fed_avg': 2, 'algo:hyp_cluster': 2, 'mon:eager': 1000, 'hit:eager-repeat-avgloss': 300,
+        'algo:mime_lite': 2, 'algo:agnostic_fed_avg': 2, 'algo:hyp_cluster': 2, 'mon:eager': 1000, 'hit:eager-repeat-avgloss': 300, 'hit:cluster-losses-on-pmap': 150, 'hit:big-batch-domain-pass': 30,
     },
     'thorough': {
         'mon:grad': 15000, 'mon:avgloss': 25000, 'mon:regonce': 25000, 'mon:empty': 15000, 'mon:evaluator': 20000,
@@ -273,6 +273,11 @@ class Config:
       self.loss = per_example_loss
       self.grad_fn = models.grad(per_example_loss, self.reg)
     self.evaluator = models.AverageLossEvaluator(self.loss, self.reg)
+    # the same evaluator built while the pmap backend is in effect (it yields clients ordered by decreasing batch count, not in
+    # the order it was given them)
+    import fedjax as _fj
+    with _fj.for_each_client_backend('pmap'):
+      self.evaluator_pmap = models.AverageLossEvaluator(self.loss, self.reg)
     self.mime_grads = mime.create_grads_for_each_client(self.grad_fn)
     self.domain_metrics = afa.create_domain_metrics_for_each_client(self.loss, self.num_domains)
 
@@ -681,6 +686,19 @@ def dataset_case(ctx, mods, cfgs, MK, i, rng):
                       'HypCluster cluster loss is NaN for an empty client', w_)
           ctx.check(len(got) == 2 and all(within(g, w, s) for g, w, s in zip(got, want, sc)), 'cluster/loss-vs-closed-form',
                     'HypCluster cluster losses differ from mean loss + regularizer per cluster', w_)
+      # the cluster-loss pass through an evaluator on the pmap backend: each client must still get ITS OWN losses
+      if n_clients >= 2 and i % 2 == 0:
+        r = ctx.call('hyp_cluster._cluster_losses[pmap]', hc._cluster_losses, cfg.evaluator_pmap, cps, hclients, hp,   # pylint: disable=protected-access
+                     witness={**gw, 'backend': 'pmap'})
+        if r.ok:
+          ctx.count('hit:cluster-losses-on-pmap')
+          for c in range(n_clients):
+            got = [float(x) for x in r.value.get(ids[c], [])]
+            want = [exps[c]['avg_loss'], exps2[c]['avg_loss']]
+            sc = [exps[c]['avg_loss_scale'], exps2[c]['avg_loss_scale']]
+            ctx.check(len(got) == 2 and all(within(g, w, s_) for g, w, s_ in zip(got, want, sc)), 'cluster/loss-vs-closed-form',
+                      'HypCluster cluster losses (evaluator on the pmap backend) differ from mean loss + regularizer per cluster '
+                      'of that client', {**gw, 'backend': 'pmap', 'client': c, 'n': sizes[c], 'observed': got, 'expected': want})
       r = ctx.call('hyp_cluster.maximization_step', hc.maximization_step, cfg.evaluator, cps, hclients, hp, witness=gw)
       if r.ok:
         for c in range(n_clients):
@@ -937,6 +955,58 @@ def algo_case(ctx, mods, cfgs, i, rng, force_empty=False):
   ctx.case_done((cfg.idx, algo_name, tuple(sizes), tuple(geoms), digest(*params.values(), *allx.values())), sample=wit, klass=klass)
 
 
+def bigbatch_case(ctx, mods, rng, case_no):
+  """Large padded batches (hundreds to thousands of real rows of ONE domain per batch) with a reduced-precision per-example
+  loss: the per-domain example COUNTS and beta are exact integers whatever the loss dtype and the batch size; with a float32
+  loss the per-domain loss sums and the average loss are batch-size independent too."""
+  jax, jnp, fedjax, models, regularizers, mime, afa, hc = mods
+  from fedjax.core import client_datasets as cd
+  D = 2
+  ldt, lname = [(jnp.bfloat16, 'bfloat16'), (jnp.float16, 'float16'), (jnp.float32, 'float32')][case_no % 3]
+  n = int([300, 700, 1300, 2600][case_no % 4]) + int(rng.randint(0, 7))
+  x = rng.uniform(-1, 1, size=(n, 2)).astype(np.float32)
+  y = (x @ np.array([1.0, -2.0]) + 0.1 * rng.randn(n)).astype(np.float32)
+  dom = (rng.rand(n) < 0.08).astype(np.int32)          # nearly everything in domain 0
+  ex = {'x': x, 'y': y, 'domain_id': dom}
+  params = {'w': jnp.asarray(rng.randn(2).astype(np.float32))}
+  alpha = np.array([0.75, 1.5], np.float32)
+
+  def loss(p, b, r):
+    del r
+    return (0.5 * jnp.square(b['x'] @ p['w'] - b['y'])).astype(ldt)
+
+  fn = afa.create_domain_metrics_for_each_client(loss, D)
+  counts = np.array([(dom == d).sum() for d in range(D)], np.float64)
+  rows64 = 0.5 * (x.astype(np.float64) @ np.asarray(params['w'], np.float64) - y) ** 2
+  wit = {'family': 'bigbatch', 'loss_dtype': lname, 'examples': n, 'per_domain_counts': counts}
+  seen = []
+  for bs in (64, 512, 1024, 4096):
+    batches = list(cd.ClientDataset(ex).padded_batch(batch_size=bs))
+    w = {**wit, 'batch_size': bs}
+    r = ctx.call('agnostic.create_domain_metrics_for_each_client', lambda: dict(fn({'params': params, 'alpha': jnp.asarray(alpha)},
+                 [(b'big', batches, jax.random.PRNGKey(0))])), witness=w)
+    if not r.ok or b'big' not in r.value:
+      continue
+    o = r.value[b'big']
+    dn, beta = np.asarray(o['domain_num'], np.float64), float(np.asarray(o['beta'], np.float64))
+    ctx.count('hit:big-batch-domain-pass')
+    ctx.check(dn.shape == (D,) and bool(np.all(dn == counts)), 'domain/count-not-number-of-real-examples',
+              f'per-domain counts {dn} with a {lname} loss and batch size {bs}; the client has {counts} examples per domain', {**w, 'observed': dn})
+    ctx.check(abs(beta - float(np.sum(alpha * counts))) <= 1e-4 * float(np.sum(alpha * counts)), 'domain/beta',
+              f'beta {beta} != sum(alpha * counts) = {float(np.sum(alpha * counts))} (loss dtype {lname}, batch size {bs})', w)
+    if lname == 'float32':
+      dl = np.asarray(o['domain_loss'], np.float64)
+      e_dl = np.array([rows64[dom == d].sum() for d in range(D)])
+      ctx.check(bool(np.all(np.abs(dl - e_dl) <= 2e-4 * (e_dl + 1))), 'domain/loss-sum-vs-closed-form',
+                f'per-domain loss sums {dl} differ from {e_dl} (batch size {bs}, {n} examples)', w)
+      r2 = ctx.call('evaluate_average_loss', models.evaluate_average_loss, params, batches, jax.random.PRNGKey(1), loss, None, witness=w)
+      if r2.ok:
+        seen.append(float(r2.value))
+        ctx.check(abs(float(r2.value) - rows64.mean()) <= 2e-4 * (rows64.mean() + 1), 'avgloss/dataset-vs-closed-form',
+                  f'evaluate_average_loss {float(r2.value)} over {n} examples in batches of {bs}; mean loss {rows64.mean()}', w)
+  ctx.case_done(('bigbatch', lname, n), sample=wit, klass=['bigbatch', 'bigbatch:' + lname])
+
+
 # ------------------------------------------------------------------------- run
 def run(ctx):
   from vmon import core
@@ -980,3 +1050,5 @@ def run(ctx):
   for cid, rng in ctx.cases('algo-empty', 8 if ctx.quick else 64):
     algo_case(ctx, mods, cfgs, int(cid.split('/')[1]), rng, force_empty=True)
   ctx.notes['shard0_seconds_algo_family'] = round(time.time() - t0, 1)
+  for cid, rng in ctx.cases('bigbatch', 12 if ctx.quick else 96):
+    bigbatch_case(ctx, mods, rng, int(cid.split('/')[1]))
